@@ -491,3 +491,105 @@ def harness(ctx, cfg):
                        and len(S3.undo) == len(S1.undo) and S3.redo == [], "C02")
         if is_user and want("C20"):
             ctx.oblige("C20.undo_one_refresh", len(e2) == 1 and len(e3) == 1, "C20")
+
+
+# ------------------------------------------------------------------ query semantics (C06)
+def query_harness(ctx, cfg):
+    """get_track_neighbors / has_track_id_at_time / _get_new_node_ids against the scan-of-graph
+    definitions, from an arbitrary Inv-state, with unconstrained integer arguments"""
+    p = build(ctx, cfg)
+    tr, sh, N = p.tr, p.sh0, p.N
+    qk, qt = z3.Int("q_track"), z3.Int("q_time")
+    ctx.input("action", "query")
+    ctx.input("args", dict(k=qk, t=qt))
+    which = ctx.choose(3, "query")
+    if which == 0:
+        pred, succ = tr.get_track_neighbors(SInt(qk), SInt(qt))
+        ctx.tag("neighbors")
+        on = [And(sh.al[i], p.tid0[i] == qk) for i in range(N)]
+
+        def is_pred(i):
+            return And(on[i], p.t0[i] < qt, And([Implies(And(on[j], p.t0[j] < qt), p.t0[j] <= p.t0[i])
+                                                for j in range(N) if j != i]))
+
+        def is_succ(i):
+            return And(on[i], p.t0[i] > qt, And([Implies(And(on[j], p.t0[j] > qt), p.t0[j] >= p.t0[i])
+                                                for j in range(N) if j != i]))
+
+        none_pred = Not(Or([And(on[i], p.t0[i] < qt) for i in range(N)]))
+        none_succ = Not(Or([And(on[i], p.t0[i] > qt) for i in range(N)]))
+        ctx.oblige("C06.track_neighbors_pred", none_pred if pred is None else is_pred(p.ids.index(int(pred))), "C06")
+        ctx.oblige("C06.track_neighbors_succ", none_succ if succ is None else is_succ(p.ids.index(int(succ))), "C06")
+    elif which == 1:
+        r = tr.has_track_id_at_time(SInt(qk), SInt(qt))
+        ctx.tag("has_track_at_time")
+        truth = Or([And(sh.al[i], p.tid0[i] == qk, p.t0[i] == qt) for i in range(N)])
+        ctx.oblige("C06.has_track_id_at_time", truth if r else Not(truth), "C06")
+    else:
+        cnt = z3.Int("id_counter")
+        ctx.assume(And(cnt >= 1, cnt <= N + 2))
+        tr.node_id_counter = SInt(cnt)
+        n = 1 + ctx.choose(3, "n_ids")
+        ctx.input("args", dict(counter=cnt, n=n))
+        try:
+            ids = tr._get_new_node_ids(n)
+        except Unsupported:
+            raise
+        ctx.tag("new_node_ids")
+        vals = [toint(x) for x in ids]
+        fresh = And([Not(Or([And(sh.al[i], v == p.ids[i]) for i in range(N)])) for v in vals])
+        distinct = z3.Distinct(vals) if len(vals) > 1 else z3.BoolVal(True)
+        later = And([toint(tr.node_id_counter) > v for v in vals])
+        ctx.oblige("C06.new_node_ids_unused", fresh, "C06")
+        ctx.oblige("C06.new_node_ids_distinct", distinct, "C06")
+        ctx.oblige("C06.counter_moves_past_issued_ids", later, "C06")
+    nt, nl = tr.get_next_track_id(), tr.get_next_lineage_id()
+    ctx.oblige("C06.next_ids_unused", And([Implies(sh.al[i], And(toint(nt) != p.tid0[i], toint(nl) != p.lid0[i]))
+                                           for i in range(N)]), "C06")
+
+
+# ------------------------------------------------------------------ construction (C04/C05/C06 base case)
+def construct_harness(ctx, cfg):
+    """The real SolutionTracks constructor on a symbolic forest WITHOUT ids: bulk _assign_tracklet_ids /
+    _assign_lineage_ids (networkx's own weakly_connected_components run on the realised graph)."""
+    N = cfg["N"]
+    ids = list(range(1, N + 1))
+    g = SymDiGraph(ids, tag="g", sym_order=False)
+    for s in range(N):
+        g.E[s][s] = False
+    tm = [z3.Int(f"t{i}") for i in ids]
+    for s in range(N):
+        g.nattr[s] = {T: SInt(tm[s]), POS: Tok(f"pos{s}")}
+    sh = I.Shape(g)
+    ctx.assume(And(list(I.forest(sh).values()) + [I.forward(sh, tm)]))
+    ctx.input("N", N)
+    ctx.input("alive", list(sh.al))
+    ctx.input("adj", [list(r) for r in sh.A])
+    ctx.input("t", tm)
+    ctx.input("action", "construct")
+    tr = SolutionTracks(g, ndim=3, time_attr=T, tracklet_attr=TID, lineage_attr=LID)
+    ctx.tag("constructed")
+    sh1 = I.Shape(g)
+    tid = I.attr_terms(g, TID)
+    lid = I.attr_terms(g, LID)
+    same_shape = And([sh.al[i] == sh1.al[i] for i in range(N)] + [sh.A[i][j] == sh1.A[i][j] for i in range(N)
+                                                                 for j in range(N)])
+    ctx.oblige("C16.construction_keeps_graph", same_shape, "C04")
+    ctx.oblige("C04.partition_after_construction", And(I.has_all(sh1, tid), I.partition_exact(sh1, tid, sh1.seg())),
+               "C04")
+    ctx.oblige("C05.partition_after_construction", And(I.has_all(sh1, lid), I.partition_exact(sh1, lid, sh1.comp())),
+               "C05")
+    ta = tr.track_annotator
+    ok = True
+    for d, vals, mx in ((ta.tracklet_id_to_nodes, tid, ta.max_tracklet_id), (ta.lineage_id_to_nodes, lid,
+                                                                             ta.max_lineage_id)):
+        want = {}
+        for i in range(N):
+            if g.alive[i] is True or ctx.decide(sh1.al[i]):
+                v = ctx.concretize(vals[i]) if vals[i] is not None else None
+                want.setdefault(v, []).append(ids[i])
+        got = {int(k2): sorted(int(x) for x in v) for k2, v in d.items()}
+        if got != {k2: sorted(v) for k2, v in want.items()} or any(k2 is None or k2 > int(mx) for k2 in want):
+            ok = False
+    ctx.oblige("C06.lookups_after_construction", ok, "C06")
+    ctx.witness("division", Or([sh1.outdeg[i] == 2 for i in range(N)]))
